@@ -197,6 +197,28 @@ static scpi_bool_t findCommandHeader(scpi_t * context, const char * header, int 
 }
 
 /**
+ * Detect program data which follows the header, but can not be parsed
+ * (e.g. trailing comma or block cut by the end of message)
+ * @param state - result of scpiParser_detectProgramMessageUnit()
+ * @param data - program message unit
+ * @param len - length of program message unit including its terminator
+ * @return TRUE if the program message unit contains invalid program data
+ */
+static scpi_bool_t hasInvalidProgramData(const scpi_parser_state_t * state, const char * data, int len) {
+    const char * end = data + len;
+
+    if ((state->numberOfParameters >= 0) || (state->programData.ptr == NULL)) {
+        return FALSE;
+    }
+
+    while ((end > state->programData.ptr) && ((end[-1] == '\r') || (end[-1] == '\n') || (end[-1] == ';'))) {
+        end--;
+    }
+
+    return end > state->programData.ptr;
+}
+
+/**
  * Parse one command line
  * @param context
  * @param data - complete command line
@@ -227,7 +249,10 @@ scpi_bool_t SCPI_Parse(scpi_t * context, char * data, int len) {
 
             composeCompoundCommand(&cmd_prev, &state->programHeader);
 
-            if (findCommandHeader(context, state->programHeader.ptr, state->programHeader.len)) {
+            if (hasInvalidProgramData(state, data, r)) {
+                SCPI_ErrorPush(context, SCPI_ERROR_INVALID_CHARACTER);
+                result = FALSE;
+            } else if (findCommandHeader(context, state->programHeader.ptr, state->programHeader.len)) {
 
                 context->param_list.lex_state.buffer = state->programData.ptr;
                 context->param_list.lex_state.pos = context->param_list.lex_state.buffer;
